@@ -201,12 +201,18 @@ def build_driver(report):
     model_vos = glob.glob(os.path.join(COQ, "theories", "Base", "*.vo")) + glob.glob(os.path.join(COQ, "theories", "Model", "*.vo")) + \
         glob.glob(os.path.join(COQ, "theories", "Spec", "*.vo")) + glob.glob(os.path.join(COQ, "theories", "Gen", "*.vo"))
     model_ml = os.path.join(OCAML, "model.ml")
+    write_extract_v()
     if newest(model_vos + [os.path.join(OCAML, "Extract.v")]) > newest([model_ml]):
         rc, out = sh("coqc -Q ../coq/theories Twig -w none Extract.v", cwd=OCAML, timeout=900)
         if rc != 0:
             report["build_errors"].append("extraction failed:\n" + out[-2000:])
             return None
         # names the driver relies on must not have been renamed by the extraction (foo -> foo0)
+    mods = sorted(os.path.basename(f)[:-3] for f in glob.glob(os.path.join(OCAML, "c[0-9][0-9].ml")))
+    gen = "(* GENERATED by bin/vlib.py: one entry per ocaml/cNN.ml *)\nlet table = [\n" + "".join('  "%s", %s.run;\n' % (m.upper(), m.capitalize()) for m in mods) + "]\n"
+    pg = os.path.join(OCAML, "props_gen.ml")
+    if not os.path.exists(pg) or open(pg).read() != gen:
+        open(pg, "w").write(gen)
     srcs = glob.glob(os.path.join(OCAML, "*.ml")) + [os.path.join(OCAML, "dune")]
     if newest(srcs) > newest([exe]):
         rc, out = sh("dune build ./driver.exe 2>&1", cwd=OCAML, timeout=900)
@@ -216,13 +222,42 @@ def build_driver(report):
     return exe
 
 
+def write_extract_v():
+    """Extract.v is assembled from ocaml/roots/*.txt (one fragment per property: Require lines and ROOT lines)"""
+    reqs, roots = [], []
+    for f in sorted(glob.glob(os.path.join(OCAML, "roots", "*.txt"))):
+        for line in open(f):
+            line = line.strip()
+            if line.startswith("ROOT "):
+                if line[5:] not in roots:
+                    roots.append(line[5:])
+            elif line and not line.startswith("#") and line not in reqs:
+                reqs.append(line)
+    body = ("(* GENERATED from ocaml/roots/*.txt by bin/vlib.py. Extraction of the executable models for the correspondence driver.\n"
+            "   ExtrOcamlBasic only: bool, option, unit, list, prod, sumbool map to OCaml types; byte, positive, N, Z, nat stay\n"
+            "   extracted inductives. No Extract Constant, no further Extract Inductive. *)\n"
+            "From Coq Require Import Extraction ExtrOcamlBasic.\n" + "\n".join(reqs) +
+            "\nExtraction Language OCaml.\nExtraction \"model.ml\"\n  " + "\n  ".join(roots) + ".\n")
+    p = os.path.join(OCAML, "Extract.v")
+    if not os.path.exists(p) or open(p).read() != body:
+        open(p, "w").write(body)
+
+
 def build_runner(report, race=False):
     exe = os.path.join(BIN, "runner-race" if race else "runner")
+    src = HARNESS
+    if os.path.abspath(REPO) != "/repo":
+        # scratch clone under test (VERIF_REPO): same harness sources, replace directive pointed at it
+        src = os.path.join(WORK, "harness-alt")
+        shutil.rmtree(src, ignore_errors=True)
+        shutil.copytree(HARNESS, src)
+        gm = open(os.path.join(src, "go.mod")).read().replace("=> /repo", "=> " + os.path.abspath(REPO))
+        open(os.path.join(src, "go.mod"), "w").write(gm)
     sums = os.path.join(REPO, "go.sum")
     if os.path.exists(sums):
-        shutil.copy(sums, os.path.join(HARNESS, "go.sum"))
+        shutil.copy(sums, os.path.join(src, "go.sum"))
     cmd = ["go", "build", "-tags", "verif"] + (["-race"] if race else []) + ["-o", exe, "."]
-    rc, out = sh(cmd, cwd=HARNESS, timeout=900)
+    rc, out = sh(cmd, cwd=src, timeout=900)
     if rc != 0:
         report["build_errors"].append("go build -tags verif of the runner against %s failed:\n%s" % (REPO, out[-3000:]))
         return None
